@@ -254,6 +254,12 @@ def check_case(case, ctx):
                 nontrivial = True
             if len(W) < len(set(id(q) for q in f.decomposition_dict)):
                 nontrivial = True
+        # a function with a non-differentiable term of non-zero weight is not differentiable: asked again at a point it
+        # already knows, it hands out a NEW subgradient ("may return a new subgradient each time" is how PEPit models that two
+        # subgradients at one point can differ; a sum that silently reuses the first one excludes real behaviours)
+        terms_now = [(lf, w) for lf, w in (weights(f) if not f.get_is_leaf() else [(f, 1.0)])]
+        expect_nondiff = any(not lf.reuse_gradient for lf, _w in terms_now)
+        prev_grads = [t[1] for t in f.list_of_points if pfun_equal(t[0], x)] if op in ("oracle", "gradient") else []
         with prog.quiet():
             if op == "oracle":
                 g, v = f.oracle(x)
@@ -281,6 +287,11 @@ def check_case(case, ctx):
                 X.append(xn)
                 ret = (g, v)
                 x = xn
+        if expect_nondiff and prev_grads and op in ("oracle", "gradient") and ret[0] is not None:
+            if f.reuse_gradient or any(ret[0] is pg for pg in prev_grads):
+                ctx.fail("non-differentiable-function-reuses-its-subgradient:%s" % ("leaf" if f.get_is_leaf() else "composite"),
+                         "%s: function %d has a non-differentiable term of non-zero weight but is flagged differentiable / returns an "
+                         "already recorded subgradient when asked again at the same point" % (where, fi))
         # what the call returned must be a recorded sample of f at x
         g, v = ret
         rec = [(gi, vi) for (xx, gi, vi) in f.list_of_points if pfun_equal(xx, x)]
